@@ -39,6 +39,17 @@ class Oracle:
 
     def pre(self, ctx):
         w = ctx.world
+        for a in ctx.rec["attrs"]:
+            if a.get("prop") == "stored":
+                # the harness's own getter creates the private store on first read: read once before the snapshot
+                for o in w.objs:
+                    G.CB.suspended = True
+                    try:
+                        getattr(o, G.attr_name(a))
+                    except Exception:
+                        pass
+                    finally:
+                        G.CB.suspended = False
         t = ctx.op.get("t", 0)
         if ctx.op["op"] != "new" and t < len(w.objs):
             ctx.store["recv"] = snap.Snapshot({"recv": w.objs[t]})
